@@ -106,6 +106,13 @@ CHECKS = {
             "Generated networks with hostile ids/descriptions/extern values, all --cov-band, both angular units, "
             "11 languages x 5 encodings; exploration.",
             "DESIGN.md §2 C12", TRUST),
+    "C19": ("reference-model + relational monitor on the real gama-g3 binary: generated ECEF networks with error-free "
+            "observations (own ellipsoid model in longdouble), reproduction with exact / perturbed approximations "
+            "(second-order bound), four algorithms, record order, redundancy/defect vs numpy rank, project-equation "
+            "dump re-adjusted through Adj and checked against a numerically differentiated Jacobian",
+            "Sampled networks over all latitudes/longitudes, all accepted observation kinds, fixed/free/constrained "
+            "datum; exploration.",
+            "DESIGN.md §2 C19", TRUST),
 }
 
 NOT_APPLICABLE = {}
